@@ -440,6 +440,17 @@ func c05boundary() []c05case {
 		add(fmt.Sprintf("assign-lhs-%d", n), "var (a, b, c)\n"+c05repeat(n, func(i int) string { return []string{"a", "b", "c", "a.x", "b[0]", "c"}[i] }, ", ")+" = [1, 2, 3]\nreturn a")
 		add(fmt.Sprintf("return-list-%d", n), "return "+c05repeat(n, func(i int) string { return fmt.Sprint(i) }, ", "))
 	}
+	// constant folding table: every operator x literal pair reaches the optimizer's folding code
+	for _, op := range c01ops {
+		var sb strings.Builder
+		for _, l := range c01literals {
+			for _, r := range c01literals {
+				sb.Reset()
+				fmt.Fprintf(&sb, "return (%s) %s (%s)", l, op, r)
+				cs = append(cs, c05case{name: "fold " + sb.String(), src: sb.String()})
+			}
+		}
+	}
 	for n := 1; n <= 12; n++ {
 		add(fmt.Sprintf("parse-errors-%d", n), c05repeat(n, func(i int) string { return "x := := 1" }, "\n"))
 		add(fmt.Sprintf("compile-errors-%d", n), c05repeat(n, func(i int) string { return fmt.Sprintf("y%d := undefinedName%d", i, i) }, "\n"))
